@@ -26,6 +26,7 @@ NOT_ASSERTED = ['termination of mnemonic_new under a random source that never yi
 
 WORDS_SHA256 = 'f18b9a84c83e38e98eceb0102b275e26438af83ab08f080cdb780a2caa9f3a6d'
 LENGTHS = [0, 1, 15, 16, 17, 31, 32, 33, 64, 1000]
+RULE += ' Sixth session: conversations with damaged datagrams (checksums of 0, 3, 31, 40 bytes handed to the receiving channel) between valid packets.'
 
 
 def BOUNDS(tier):
